@@ -1,6 +1,8 @@
 package eng
 
 import (
+	"strings"
+
 	"golang.org/x/tools/go/ssa"
 )
 
@@ -118,6 +120,61 @@ func (m *M) liveBefore(fn *ssa.Function, blk, idx int) map[ssa.Value]bool {
 		}
 	}
 	return cur
+}
+
+func frameBase(id string) string {
+	if i := strings.Index(id, "#def"); i >= 0 && (strings.HasSuffix(id, "#defargs") || strings.HasSuffix(id, "#deffn")) {
+		return id[:i]
+	}
+	return id
+}
+
+// materialize makes the path's overlay hold exactly the registers that are live in the parked
+// configurations (from the overlay or, unchanged since the configuration was resumed, from the
+// base snapshot), plus the pending defer records of their frames.
+func (m *M) materialize(cfgs []*Config, p *path) {
+	frames := map[string]map[ssa.Value]bool{}
+	for _, c := range cfgs {
+		for i, f := range c.Frames {
+			var live map[ssa.Value]bool
+			if c.Status == stDone || c.Status == stPanic {
+				live = map[ssa.Value]bool{}
+			} else if i == len(c.Frames)-1 {
+				live = m.liveBefore(f.Fn, f.Blk, f.Idx)
+			} else if _, isRD := f.Fn.Blocks[f.Blk].Instrs[f.Idx].(*ssa.RunDefers); isRD {
+				live = m.liveBefore(f.Fn, f.Blk, f.Idx)
+			} else {
+				live = m.liveBefore(f.Fn, f.Blk, f.Idx+1)
+			}
+			if old, ok := frames[f.ID]; ok {
+				for v := range live {
+					old[v] = true
+				}
+			} else {
+				frames[f.ID] = live
+			}
+		}
+	}
+	keep := func(k regKey) bool {
+		live, ok := frames[frameBase(k.frame)]
+		if !ok {
+			return false
+		}
+		if v, isVal := k.v.(ssa.Value); isVal {
+			return live[v]
+		}
+		return true // defer records
+	}
+	for k := range p.ov.regs {
+		if !keep(k) {
+			delete(p.ov.regs, k)
+		}
+	}
+	for k, v := range p.base {
+		if _, ok := p.ov.regs[k]; !ok && keep(k) {
+			p.ov.regs[k] = v
+		}
+	}
 }
 
 // pruneRegs drops overlay registers that are dead in every parked configuration of the result.
